@@ -19,6 +19,7 @@ func init() {
 			"spare capacity lets a later write through the same buffer rewrite what was stored. " +
 			"Further: every success exit of SaveKeyValue has stored the (possibly empty = deleted) value in dirtyData (the dirty entry is what shadows the older trie value), a key present in dirtyData is never answered from the trie, " +
 			"and the caller's key/value slices are never the destination of append/copy/element stores (append(key, ...) writes into the caller's spare capacity, which may be the caller's value). " +
+			"A data trie recreated by loadDataTrie is registered in the per-address cache before the load succeeds. " +
 			"Not decided (value-level): suffix/trim arithmetic, size limit arithmetic.",
 		Run: runC08,
 	})
